@@ -34,6 +34,7 @@
 #include <type_traits>
 
 #include <jsoncons/config/jsoncons_config.hpp>
+#include <jsoncons/json_exception.hpp>
 
 namespace jsoncons { 
 namespace bson {
@@ -56,6 +57,10 @@ namespace bson {
 
         oid_t(const string_view& str)
         {
+            if (str.size() != 2*bytes_.size())
+            {
+                JSONCONS_THROW(json_runtime_error<std::invalid_argument>("An object id must have 24 hexadecimal characters"));
+            }
             for (std::size_t i = 0; i < bytes_.size(); i++) 
             {
                bytes_[i] = ((parse_hex_char (str[2 * i]) << 4) |
